@@ -46,7 +46,16 @@ def _find(em, rd, call, args, obj):
     return None
 
 
+def _make_pair(em, rd, call, args, obj):
+    if obj is not None or len(args) != 2:
+        return None
+    t = em.ctype_of(qt(call))
+    em.lowerings['M-pair(std::make_pair)'] += 1
+    return '((%s){ %s, %s })' % (em.cdecl(em._strip_top_quals(t)), em.E(args[0]), em.E(args[1]))
+
+
 MODELS = {
+    'make_pair': _make_pair,
     'find': _find,
     'min': _limits('min'),
     'max': _limits('max'),
